@@ -25,14 +25,7 @@ NOT_APPLICABLE = {
 # verdicts on the current tree have not been triaged site by site into "genuine defect" versus
 # "imprecision of the rule", and an untriaged check is neither allowed to raise an alarm nor to be
 # silenced wholesale.  They stay runnable by hand (./check C08) for development.
-UNCLAIMED = {
-    "C08": "not claimed: engine/rules/c08.py exists, but its PANIC clause (totality of the SNAP ingress filter's call graph) "
-           "still leaves 39 potential panic sites on the current tree that are neither auto-discharged nor reviewed; until each "
-           "is triaged the check is not registered (DESIGN.md section 12)",
-    "C14": "not claimed: engine/rules/c14.py exists, but 6 reports on the current tree (echo-reply provenance through "
-           "to_vec/identifier accessors, SCMP-error-to-error guards in three senders) are not yet separated into rule imprecision "
-           "and genuine defects; not registered until triaged (DESIGN.md section 12)",
-}
+UNCLAIMED = {}
 NOT_BUILT = "not claimed: the static rule planned in DESIGN.md section 5 has not been built; no check is registered rather than a weaker one under this label"
 
 ALL = ["C%02d" % i for i in range(1, 21)]
@@ -91,7 +84,8 @@ def main():
         "not_applicable": na,
         "notes": "Family: static analysis only. Every check rebuilds facts from /repo's working tree (cache keyed by content hash). "
                  "known_findings.json lists genuine defects recorded/fixed; see DESIGN.md section 12 (status as built). "
-                 "Unguarded repairs in /repo: 8998145 (fix: try_reverse validates before writing, C12), 6559404 (fix: validate_nbf, C10); "
+                 "Unguarded repairs in /repo (one fix: commit each): 8998145 (try_reverse validates before writing, C12), 6559404 (validate_nbf, C10), "
+                 "fde9866 (parse_socket_addr brackets, C15), eab62ba (combinator no-interface panic, C19), 331ef08 (gateway no SCMP error on SCMP error, C14); "
                  "no hook/instrumentation commits.",
     }
     with open(os.path.join(VERIF, "MANIFEST.json"), "w") as f:
